@@ -121,6 +121,10 @@ def transfer_forms():
             ('call.rel32', b'\xe8', 32, 32), ('call.rel16', b'\x66\xe8', 16, 16),
             ('loop', b'\xe2', 8, 32), ('loope', b'\xe1', 8, 32), ('loopne', b'\xe0', 8, 32), ('jecxz', b'\xe3', 8, 32),
             ('loop.a16', b'\x67\xe2', 8, 32), ('jcxz', b'\x67\xe3', 8, 32), ('loop.o16', b'\x66\xe2', 8, 16)]
+    # segment-override bytes in front of a transfer (2e/3e are the branch hints, 'cs call' is used as padding): meaning-free
+    for pname, pb in (('cs', b'\x2e'), ('ds', b'\x3e'), ('es', b'\x26'), ('fs', b'\x64')):
+        out += [('jcc4.rel8.seg', pb + b'\x74', 8, 32), ('jcc5.rel32.seg', pb + b'\x0f\x85', 32, 32), ('jmp.rel8.seg', pb + b'\xeb', 8, 32),
+                ('jmp.rel32.seg', pb + b'\xe9', 32, 32), ('call.rel32.seg', pb + b'\xe8', 32, 32), ('loop.seg', pb + b'\xe2', 8, 32)]
     return out
 
 
